@@ -90,6 +90,7 @@ def build_harness(scratch, race=False, tags="verif", name="harness"):
 
 
 # --------------------------------------------------------------------------- TLC
+TLC_STACK = "-Xss256m"
 STATS_RE = re.compile(r"(\d+) states generated, (\d+) distinct states found")
 
 
@@ -114,6 +115,19 @@ def run_tlc(scratch, module, cfg, workers=8, timeout=900, extra=(), files=None, 
     env = dict(os.environ)
     if java_opts:
         env["JAVA_TOOL_OPTIONS"] = (env.get("JAVA_TOOL_OPTIONS", "") + " " + java_opts).strip()
+    if "-Xss" not in env.get("JAVA_TOOL_OPTIONS", "") + env.get("JDK_JAVA_OPTIONS", ""):
+        # The recursive operators of TwigSem (evaluation, printing, structural comparison over the longest data values
+        # and the deepest nestings) go a few thousand Java frames deep.  How many bytes that takes is decided by the JIT
+        # at run time: under C1-compiled (tier 1-3) frames the C18 quick model needs ~2 MB, under C2 or the interpreter
+        # < 400 KB, so with the JVM's default 1 MB stacks the same model passes or dies with a StackOverflowError
+        # depending on when the compiler threads get there (seen on a freshly restored sandbox; reproduced with
+        # -XX:TieredStopAtLevel=1).  Two places need the room: TLC's worker threads (created after JAVA_TOOL_OPTIONS
+        # is read, so -Xss there reaches them) and the main thread, which computes the initial states -- where the
+        # enumerating models do their evaluation -- and is created by the `java` launcher before the JVM reads
+        # JAVA_TOOL_OPTIONS; only a launcher-level -Xss (JDK_JAVA_OPTIONS, JDK 9+) reaches it.  The space is only
+        # reserved, not committed.
+        env["JDK_JAVA_OPTIONS"] = (env.get("JDK_JAVA_OPTIONS", "") + " " + TLC_STACK).strip()
+        env["JAVA_TOOL_OPTIONS"] = (env.get("JAVA_TOOL_OPTIONS", "") + " " + TLC_STACK).strip()
     t0 = time.time()
     rest = []
     n = 0
